@@ -120,7 +120,8 @@ func guard(f func() Res) (r Res) {
 }
 
 type ctx struct {
-	v    *Vocab
+	badSalt int
+	v       *Vocab
 	conc Conc
 	vid  map[string]int
 }
@@ -143,6 +144,22 @@ func (c *ctx) entryDoc(name string, p int, k AbsKind) any {
 		m["description"] = "entry " + fmt.Sprint(p)
 		if k.Dep {
 			m["deprecated"] = true
+		}
+		if k.Bad { // one way of not validating per spelling and position
+			switch (p + c.badSalt) % 6 {
+			case 0:
+				m["version"] = invalidStrings[(p+c.badSalt)%len(invalidStrings)]
+			case 1:
+				m["dependencies"] = []any{map[string]any{"name": "lib", "version": "1.0.0", "repository": repoURL, "alias": "not a valid alias!"}}
+			case 2:
+				m["dependencies"] = []any{nil}
+			case 3:
+				m["name"] = "some/" + name
+			case 4:
+				m["type"] = "no-such-type"
+			case 5:
+				m["maintainers"] = []any{nil}
+			}
 		}
 	}
 	return m
@@ -267,6 +284,16 @@ func (c *ctx) shallow(dir string, cs Case, o *Obs) {
 				continue
 			}
 			md := &chart.Metadata{Name: chartName, Version: c.conc.Strings[k.Vid-1], APIVersion: "v2"}
+			if k.Bad { // MustAdd validates: an entry that does not validate is refused
+				switch (i + 1 + c.badSalt) % 3 {
+				case 0:
+					md.Type = "no-such-type"
+				case 1:
+					md.Dependencies = []*chart.Dependency{{Name: "lib", Version: "1.0.0", Alias: "not a valid alias!"}}
+				default:
+					md.Version = invalidStrings[(i+c.badSalt)%len(invalidStrings)]
+				}
+			}
 			_ = ix.MustAdd(md, fmt.Sprintf("%s-e%d.tgz", chartName, i+1), repoURL, fmt.Sprintf("e%d", i+1))
 		}
 		ix.SortEntries()
@@ -550,7 +577,7 @@ func cmdRun(args []string) error {
 			for i := range jobs {
 				cs := cases[i]
 				for ci, conc := range v.Concs {
-					c := &ctx{v: &v, conc: conc, vid: map[string]int{}}
+					c := &ctx{v: &v, conc: conc, vid: map[string]int{}, badSalt: cs.Code + ci + int(*seed)}
 					for vi, s := range conc.Strings {
 						c.vid[s] = vi + 1
 					}
